@@ -21,7 +21,7 @@ import time
 from kernel import core, bfg, proj
 
 SPECIALS = ''.join(chr(c) for c in range(0x20, 0x7f) if not chr(c).isalnum() and chr(c) not in '/\\')
-ROLES = ['src', 'srcdir', 'out', 'outdir', 'copy']
+ROLES = ['src', 'srcdir', 'out', 'outdir', 'copy', 'csrc']
 
 
 def names(thorough):
@@ -211,6 +211,7 @@ def role_slots(role, name):
         'out': [('target', name + '.out')],
         'outdir': [('target', 'od/' + name + '/o.txt'), ('orderonly', 'od/' + name)],
         'copy': [('target', 'cp/' + name), ('prereq', 'S/cp/' + name)],
+        'csrc': [('prereq', 'S/' + name + '.c'), ('target', 'cs.int/' + name + '.o')],
         'find': [('dirdep', 'S/fd/' + name), ('prereq', 'S/fd/' + name + '/a.in'),
                  ('target', 'found/fd/' + name + '/a.in'), ('orderonly', 'found/fd/' + name)],
         # the walked directory only as a prerequisite: outputs are plainly named (so names that
@@ -229,6 +230,14 @@ def make_witness(name, scratch, env):
             if (kind, path) not in cache:
                 cache[(kind, path)] = slot_witness(kind, path, name, scratch, env)
             res[role]['%s %s' % (kind, path)] = cache[(kind, path)]
+    # a compiled source also travels through the depfile the COMPILER writes: can make consume the
+    # one gcc itself writes for this source name and object path (hand-written Makefile)?
+    enc = res['csrc']['target cs.int/%s.o' % name]
+    if enc is not None and res['csrc']['prereq S/%s.c' % name] is not None and '"' not in name:
+        ok = gcc_depfile_roundtrip(name + '.c', scratch, env, 'cs.int/%s.o' % name, enc)
+        res['csrc']['gcc depfile'] = 'ok' if ok else None
+    else:
+        res['csrc']['gcc depfile'] = None
     return res
 
 
@@ -237,7 +246,7 @@ def feasible(backend, role, name, wit):
         # the manifest language can escape everything in a path except `|` (manual: $$, $space, $:)
         if '|' in name:
             return False
-        if role in ('find', 'findsrc'):
+        if role in ('find', 'findsrc', 'csrc'):
             # the depfile bfg9000 writes is read through refninja's deliberately partial depfile
             # dialect (Appendix A): only names needing no backslash except before space / #
             return not any(c in name for c in '?*[]%:|\t\\') and not name.startswith('~')
@@ -267,6 +276,10 @@ def role_decl(role, name):
     if role == 'copy':
         return (["default(copy_file(file=%r))" % ('cp/' + name)],
                 {'cp/' + name: 'copy\n'}, ['cp/' + name], 'cp/' + name)
+    if role == 'csrc':
+        # a compiled source: the object's name derives from it and is handed to the link rule
+        return (["default(executable('cs', [%r]))" % (name + '.c')], {name + '.c': 'int main(){return 0;}\n'},
+                ['cs', 'cs.int/' + name + '.o'], name + '.c')
     raise KeyError(role)
 
 
@@ -278,7 +291,7 @@ def product_files(bld):
     for f in listing(bld):
         base = os.path.basename(f)
         if f in INFRA or base.startswith('.bfg_') or base == '.dir' or f.endswith('.stamp') or \
-                f.endswith('.tmp'):
+                f.endswith('.tmp') or f.endswith('.o.d'):
             continue
         out.add(f)
     return out
